@@ -641,9 +641,6 @@ def shrink(case, pred):
 # ---------------------------------------------------------------- entry points
 
 def run(chk):
-    import glob
-    for stale in glob.glob(L.SCRATCH_PREFIX + "c15-*"):
-        L.rm_scratch(stale)
     chk.theorems("props.C15", THEOREMS, ["theories/props/C15.vo", "theories/model/CrashObs.vo"])
     rng = chk.rng
     cases = []
